@@ -418,8 +418,25 @@ func (e *env) runFaults(cc *caseCtx, o *outcome, fs []fault) {
 				continue
 			}
 			for _, f := range cc.byIdent[h.req.Ident()] {
-				if f.Kind == "entity" || f.Kind == "multi" {
+				if f.Kind == "entity" {
 					cs = append(cs, "entity-count-ignored")
+				}
+				if f.Kind == "multi" {
+					// the damaged list is the first non-empty one
+					alias := ""
+					if gs, err := e2e.ParseRequest(h.req.Query); err == nil {
+						for _, g := range gs {
+							if h.req.Variables != nil && h.req.Variables.Get(g.RepsVar) != nil && len(h.req.Variables.Get(g.RepsVar).Items) > 0 {
+								alias = g.Alias
+								break
+							}
+						}
+					}
+					for _, en := range f.Entries {
+						if en.Alias == alias && en.Single {
+							cs = append(cs, "entity-count-ignored")
+						}
+					}
 				}
 			}
 		}
@@ -843,9 +860,16 @@ func (e *env) checkCase(c *fedlab.Case, lab *fedlab.Lab, pl *e2e.Planner, opt op
 	// subsets
 	rnd := common.NewRand(c.Seed*7919 + uint64(c.Index)*31 + uint64(b2i(opt.MF))*2 + uint64(b2i(opt.Sched)))
 	n := len(cc.keys)
+	// clean: without the kinds behind recorded findings, so that those do not mask anything else in a subset
+	cleanKinds := []string{e2e.KTransport, e2e.K500Empty, e2e.K200Empty, e2e.KNonJSON, e2e.KTruncated, e2e.KErrsNoData, e2e.KEntNull}
+	clean := false
 	pickKind := func(t int) string {
+		kinds := e2e.AllKinds
+		if clean {
+			kinds = cleanKinds
+		}
 		for tries := 0; tries < 20; tries++ {
-			k := e2e.AllKinds[rnd.Pick(len(e2e.AllKinds))]
+			k := kinds[rnd.Pick(len(kinds))]
 			if e2e.Applicable(k, cc.byKey[cc.keys[t]]) {
 				return k
 			}
@@ -859,6 +883,7 @@ func (e *env) checkCase(c *fedlab.Case, lab *fedlab.Lab, pl *e2e.Planner, opt op
 					continue // singles are done
 				}
 				for rep := 0; rep < 2; rep++ {
+					clean = rep == 0
 					var fs []fault
 					for t := 0; t < n; t++ {
 						if mask&(1<<t) != 0 {
@@ -874,6 +899,7 @@ func (e *env) checkCase(c *fedlab.Case, lab *fedlab.Lab, pl *e2e.Planner, opt op
 				count = 2000
 			}
 			for i := 0; i < count; i++ {
+				clean = i%3 != 0
 				size := 2 + rnd.Pick(min(n-1, 3))
 				perm := rnd.Perm(n)[:size]
 				sort.Ints(perm)
